@@ -3,6 +3,7 @@
 package props
 
 import (
+	"encoding/json"
 	"fmt"
 	"path/filepath"
 	"strings"
@@ -78,6 +79,15 @@ func c10File(run *hx.Run, o *hx.Oracle, dir string, f, perFile int) {
 		return
 	}
 	defer low.Close()
+	if f%2 == 0 {
+		// every other file: the high-level calls go through the SAME handle the definitions are read from,
+		// so that anything a read leaves behind in the handle's view of the schema shows up
+		db.Close()
+		db = sqlittle.VerifWrap(low)
+		run.See("handle_sharing", "high-level calls on the handle Schema() is read from")
+	} else {
+		run.See("handle_sharing", "separate handles")
+	}
 	sqlByTable := map[string][]string{}
 	for _, p := range rep.Programs {
 		if len(p.SQL) > 0 {
@@ -200,6 +210,10 @@ func c10Table(run *hx.Run, o *hx.Oracle, path string, db *sqlittle.DB, low *sdb.
 		return
 	}
 	run.Count("tables_accepted_by_sqlittle", 1)
+	sigBefore := ""
+	if b, err := json.Marshal(s); err == nil {
+		sigBefore = string(b)
+	}
 	if len(stmts) > 0 {
 		run.Distinct(strings.Join(stmts, ";"))
 	}
@@ -416,6 +430,20 @@ func c10Table(run *hx.Run, o *hx.Oracle, path string, db *sqlittle.DB, low *sdb.
 					bad("select/"+diffKind(want, got), fmt.Sprintf("Select(%q): %s", t.Name, df))
 				}
 			}
+		}
+	}
+	// the definition as reported must not depend on which reads ran before
+	if sigBefore != "" {
+		var s2 *sdb.Schema
+		var err2 error
+		if p, pm := safely(func() { s2, err2 = low.Schema(t.Name) }); p {
+			bad("schema-after-reads/panic", "Schema panicked after reads: "+firstLines(pm, 2))
+		} else if err2 != nil {
+			bad("schema-after-reads/error", fmt.Sprintf("Schema(%q) fails after reads on the handle: %v", t.Name, err2))
+		} else if b, err := json.Marshal(s2); err == nil && string(b) != sigBefore {
+			bad("schema-after-reads/changed", fmt.Sprintf("Schema(%q) differs after the table was read through its indexes: before %s, after %s", t.Name, clip(sigBefore, 600), clip(string(b), 600)))
+		} else {
+			run.Count("schema_stable_after_reads", 1)
 		}
 	}
 	if run.Seen("sampled", "x") < 4 && len(s.Indexes) > 1 {
